@@ -436,6 +436,7 @@ func init() {
 		c07Timestamp(r)
 		c07WriteFaults(r)
 		c07Wire(r, d, seed)
+		c07WireDV(r, d)
 		c07MutatingHandlers(r)
 	}
 	props["C08"] = func(r *Result, d *drv.Driver, tier string, seed int64, replay string) {
